@@ -13,7 +13,7 @@ pub struct C02 {
 
 impl C02 {
     pub fn new(tier: Tier) -> C02 {
-        let sets = hl_sets(&Bounds { t: tier.pick(5, 6), q: tier.pick(3, 4), words: tier.pick(2, 3), fams: vec![1, 2, 3, 4, 5] });
+        let sets = hl_sets(&Bounds { t: tier.pick(5, 6), q: tier.pick(3, 4), words: tier.pick(2, 3), corpus: true, fams: vec![1, 2, 3, 4, 5] });
         let inv = LANGS.iter().map(|l| with_lang(*l, |lang| compose_inventory(lang))).collect();
         C02 { sets, inv }
     }
@@ -55,7 +55,7 @@ impl Prop for C02 {
                     }
                 }
             }
-            for q in &set.queries {
+            for q in set.queries_for(&title).iter() {
                 cx.eval();
                 let hits = match cx.search(&mut st, q) {
                     Ok(h) => h,
